@@ -188,10 +188,18 @@ fn build(p: &Program) -> (tet::library::Library, Ptr<Cell>, Ptr<Cell>) {
     let mut lib = tet::library::Library::new("plib");
     let cells: Vec<Ptr<Cell>> = p.cells.iter().enumerate().map(|(i, s)| lib.cells.add(Cell::from(Layout::new(format!("c{}", i), 0, outline_of(*s))))).collect();
     let top = program_layout(p, "top", &cells, (0, 0));
+    // a cell may carry an abstract view beside its layout; its layout is placed all the same
+    let with_abs = |l: Layout| -> Cell {
+        let mut c = Cell::from(l);
+        if p.insts.len() % 2 == 1 {
+            c.abs = Some(tet::abs::Abstract::new(c.name.clone(), 0, Outline::rect(100_000, 100_000).unwrap()));
+        }
+        c
+    };
     let top = match wrap_mode(p) {
-        0 => lib.cells.add(Cell::from(top)),
+        0 => lib.cells.add(with_abs(top)),
         mode => {
-            let top = Ptr::new(Cell::from(top));
+            let top = Ptr::new(with_abs(top));
             let mut outer = Layout::new("outer", 0, Outline::rect(200_000, 200_000).unwrap());
             outer.instances.push(Ptr::new(Instance { inst_name: "the_top".into(), cell: top.clone(), loc: (3isize, 5isize).into(), reflect_horiz: false, reflect_vert: false }));
             lib.cells.add(Cell::from(outer));
@@ -201,7 +209,7 @@ fn build(p: &Program) -> (tet::library::Library, Ptr<Cell>, Ptr<Cell>) {
             top
         }
     };
-    let twin = lib.cells.add(Cell::from(program_layout(p, "twin", &cells, TWIN_SHIFT)));
+    let twin = lib.cells.add(with_abs(program_layout(p, "twin", &cells, TWIN_SHIFT)));
     (lib, top, twin)
 }
 /// Place and read back (name -> (loc, boundbox))
